@@ -359,3 +359,40 @@ Definition model_draw (a : Model.arith) (eps : Q) (c : Model.cfg) (T F : nat) (l
   | Some l => map (fun lu => Model.draw a eps c (Z.of_nat F) (fst lu) (snd lu)) (combine l us)
   | None => map (fun u => Model.draw a eps c (Z.of_nat F) (Z.of_nat T) u) us
   end.
+
+(* ---- the model instance the interpreted source is tied to ---------------------------------------- *)
+(* float32 operations round with [r32 a]; Python-level float arithmetic is MiniPy's: exact over Q, results
+   kept in lowest terms - i.e. the model's double rounding [r64] is [Qred], the identity up to [==] *)
+Definition pyq (a : Model.arith) : Model.arith := Model.mkArith (Model.r32 a) Qred.
+
+(* the variates of batch element n as the oracle serves them: call indices in the order the code draws
+   (time warp, frequency warp, time masks, frequency masks; a disabled group makes no call) *)
+Definition tmask_enabled (c : Model.cfg) : bool :=
+  (negb (Model.c_Mt c =? 0)%Z && Model.nonzero (Model.c_pt c) && negb (Nat.eqb (Model.c_nt c) 0)
+   && Model.nonzero (Model.c_npt c))%bool.
+Definition fmask_enabled (c : Model.cfg) : bool :=
+  (negb (Model.c_Mf c =? 0)%Z && negb (Nat.eqb (Model.c_nf c) 0))%bool.
+Definition k_fwarp (c : Model.cfg) : nat := if Model.nonzero (Model.c_Wt c) then 2%nat else 0%nat.
+Definition k_tmask (c : Model.cfg) : nat := k_fwarp c + (if Model.nonzero (Model.c_Wf c) then 2 else 0)%nat.
+Definition k_fmask (c : Model.cfg) : nat := k_tmask c + (if tmask_enabled c then 2 else 0)%nat.
+
+Definition uv_of (rnd : nat -> nat -> Q) (c : Model.cfg) (n : nat) : Model.uv :=
+  let nt := Model.c_nt c in let nf := Model.c_nf c in
+  Model.mkUV (rnd 0%nat n) (rnd 1%nat n) (rnd (k_fwarp c) n) (rnd (S (k_fwarp c)) n)
+    (map (fun m => rnd (k_tmask c) (n * nt + m)%nat) (seq 0 nt)) (map (fun m => rnd (S (k_tmask c)) (n * nt + m)%nat) (seq 0 nt))
+    (map (fun m => rnd (k_fmask c) (n * nf + m)%nat) (seq 0 nf)) (map (fun m => rnd (S (k_fmask c)) (n * nf + m)%nat) (seq 0 nf)).
+
+(* the valid length of batch element n: lengths[n], or T when lengths is omitted *)
+Definition len_of (T : nat) (lens : option (list Z)) (n : nat) : Z :=
+  match lens with None => Z.of_nat T | Some l => nth n l 0%Z end.
+
+(* two parameter tuples agree: mask groups are equal, warp groups are equal as rationals *)
+Definition warp_eqv (x y : option (Q * Q)) : Prop :=
+  match x, y with
+  | None, None => True
+  | Some p, Some q => (fst p == fst q)%Q /\ (snd p == snd q)%Q
+  | _, _ => False
+  end.
+Definition params_eqv (p q : Model.params) : Prop :=
+  warp_eqv (Model.p_tw p) (Model.p_tw q) /\ warp_eqv (Model.p_fw p) (Model.p_fw q)
+  /\ Model.p_tm p = Model.p_tm q /\ Model.p_fm p = Model.p_fm q.
